@@ -930,6 +930,16 @@ func resolveSpill(v ssa.Value) ssa.Value {
 // same path in a function and in the closures it creates.
 func pathOf(v ssa.Value) string { return pathOfD(v, 0) }
 
+// isFieldLoad: v is the value of a struct field (a load through a field address).
+func isFieldLoad(v ssa.Value) bool {
+	u, ok := v.(*ssa.UnOp)
+	if !ok || u.Op != token.MUL {
+		return false
+	}
+	_, ok = u.X.(*ssa.FieldAddr)
+	return ok
+}
+
 func pathOfD(v ssa.Value, d int) string {
 	if v == nil {
 		return "<nil>"
@@ -941,6 +951,25 @@ func pathOfD(v ssa.Value, d int) string {
 	case *ssa.Parameter:
 		return x.Name()
 	case *ssa.FreeVar:
+		// a captured local that only ever holds one field's value reads as that field
+		if fn := x.Parent(); fn != nil && fn.Parent() != nil {
+			for k, fv := range fn.FreeVars {
+				if fv != x {
+					continue
+				}
+				var bound ssa.Value
+				eachInstr(fn.Parent(), func(in ssa.Instruction) {
+					if mc, ok := in.(*ssa.MakeClosure); ok && mc.Fn == fn && k < len(mc.Bindings) {
+						bound = mc.Bindings[k]
+					}
+				})
+				if al, ok := bound.(*ssa.Alloc); ok {
+					if sv, ok := singleStore(al); ok && isFieldLoad(sv) {
+						return pathOfD(sv, d+1)
+					}
+				}
+			}
+		}
 		return x.Name()
 	case *ssa.Global:
 		return x.Name()
@@ -953,6 +982,10 @@ func pathOfD(v ssa.Value, d int) string {
 		if sv, ok := singleStore(x); ok {
 			if p, isP := sv.(*ssa.Parameter); isP {
 				return p.Name()
+			}
+			// `keys := c.sortedKeys` (kept in memory because a closure reads it): the local names the field
+			if isFieldLoad(sv) {
+				return pathOfD(sv, d+1)
 			}
 		}
 		if x.Comment != "" {
